@@ -1,3 +1,1337 @@
 package engine
 
-func registerSQL(e *Engine) {}
+import (
+	"fmt"
+	"go/types"
+	"reflect"
+	"strconv"
+	"strings"
+
+	"golang.org/x/tools/go/ssa"
+)
+
+// ---------------------------------------------------------------------------------------------
+// M1: the SQL text STFS builds is parsed and evaluated over a bounded table with symbolic fields.
+// Semantics implemented (SQLite, as probed against modernc.org/sqlite):
+//   =, !=, <, <=, >, >=, and, or, not, in (...), ||, + - *, length() (characters), replace(),
+//   like (% and _, ASCII case-insensitive, _ = one UTF-8 character), min() with bare columns taken
+//   from the first minimising row, order by <expr> desc limit 1, limit n, double-quoted text that is
+//   not a column name is a string literal, aliases usable in where, primary key (name, linkname).
+// Anything outside this subset aborts the path as unsupported (INCONCLUSIVE), never silently.
+// ---------------------------------------------------------------------------------------------
+
+const modelsPkg = "github.com/pojntfx/stfs/internal/db/sqlite/models/metadata"
+
+type sqlTable struct {
+	rows   []*StructVal
+	typ    *types.Struct
+	named  types.Type
+	col    map[string]int // column name -> field index
+	writes int            // insert/update/delete statements executed (ghost, C15)
+	reads  int
+}
+
+func (e *Engine) headerType() (types.Type, *types.Struct) {
+	sp := e.SSA[modelsPkg]
+	t := sp.Pkg.Scope().Lookup("Header").Type()
+	return t, t.Underlying().(*types.Struct)
+}
+
+func boilTag(tag string) string {
+	st := reflect.StructTag(tag)
+	b := st.Get("boil")
+	if i := strings.Index(b, ","); i >= 0 {
+		b = b[:i]
+	}
+	return b
+}
+
+func (p *Path) newTable() *sqlTable {
+	nt, st := p.E.headerType()
+	t := &sqlTable{typ: st, named: nt, col: map[string]int{}}
+	for i := 0; i < st.NumFields(); i++ {
+		if b := boilTag(st.Tag(i)); b != "" && b != "-" {
+			t.col[b] = i
+		}
+	}
+	return t
+}
+
+func (p *Path) tableOf(exec Value) *sqlTable {
+	iv, ok := exec.(*IfaceVal)
+	var ptr *Pointer
+	if ok {
+		if iv.IsNil() {
+			p.gopanic("nil pointer dereference (database handle is nil: index not opened)", nil)
+		}
+		ptr, _ = iv.V.(*Pointer)
+	} else {
+		ptr, _ = exec.(*Pointer)
+	}
+	if ptr.IsNil() {
+		p.gopanic("nil pointer dereference (database handle is nil: index not opened)", nil)
+	}
+	key := fmt.Sprintf("table:%d", ptr.Obj.ID)
+	if t, ok := p.ghost[key].(*sqlTable); ok {
+		return t
+	}
+	t := p.newTable()
+	p.ghost[key] = t
+	return t
+}
+
+// ---------- SQL values ----------
+
+type sqlVal struct {
+	null bool
+	i    *Term   // integer
+	s    *StrVal // text
+}
+
+func (v sqlVal) isText() bool { return v.s != nil }
+
+func (p *Path) sqlFromValue(v Value) sqlVal {
+	switch x := v.(type) {
+	case *IfaceVal:
+		if x.IsNil() {
+			return sqlVal{null: true}
+		}
+		return p.sqlFromValue(x.V)
+	case *Term:
+		if x.S.K == KBool {
+			return sqlVal{i: Ite(x, BVC(64, 1), BVC(64, 0))}
+		}
+		if x.S.K == KBV {
+			return sqlVal{i: Resize(x, 64, true)}
+		}
+	case *StrVal:
+		return sqlVal{s: x}
+	case *StructVal:
+		// time.Time and friends: compared by identity of their integer payload
+		if len(x.F) >= 2 {
+			if t, ok := x.F[1].(*Term); ok {
+				return sqlVal{i: t}
+			}
+		}
+	}
+	p.unsupported("sql: unsupported parameter value %T", v)
+	return sqlVal{}
+}
+
+func (p *Path) truth(v sqlVal) *Term {
+	if v.null {
+		return FalseT
+	}
+	if v.isText() {
+		p.unsupported("sql: text used as a condition")
+	}
+	return Ne(v.i, BVC(64, 0))
+}
+
+func boolVal(t *Term) sqlVal { return sqlVal{i: Ite(t, BVC(64, 1), BVC(64, 0))} }
+
+// ---------- tokenizer / parser ----------
+
+type sqlTok struct {
+	k string // id, num, str, dq, op, param
+	v string
+}
+
+func sqlLex(p *Path, s string) []sqlTok {
+	var out []sqlTok
+	i := 0
+	for i < len(s) {
+		c := s[i]
+		switch {
+		case c == ' ' || c == '\n' || c == '\t' || c == '\r' || c == ';':
+			i++
+		case c == '\'' || c == '"':
+			j := i + 1
+			var sb strings.Builder
+			for j < len(s) {
+				if s[j] == c {
+					if j+1 < len(s) && s[j+1] == c {
+						sb.WriteByte(c)
+						j += 2
+						continue
+					}
+					break
+				}
+				sb.WriteByte(s[j])
+				j++
+			}
+			k := "str"
+			if c == '"' {
+				k = "dq"
+			}
+			out = append(out, sqlTok{k, sb.String()})
+			i = j + 1
+		case c >= '0' && c <= '9':
+			j := i
+			for j < len(s) && s[j] >= '0' && s[j] <= '9' {
+				j++
+			}
+			out = append(out, sqlTok{"num", s[i:j]})
+			i = j
+		case c == '_' || (c >= 'a' && c <= 'z') || (c >= 'A' && c <= 'Z'):
+			j := i
+			for j < len(s) && (s[j] == '_' || s[j] == '.' || (s[j] >= 'a' && s[j] <= 'z') || (s[j] >= 'A' && s[j] <= 'Z') || (s[j] >= '0' && s[j] <= '9')) {
+				j++
+			}
+			out = append(out, sqlTok{"id", strings.ToLower(s[i:j])})
+			i = j
+		case c == '?':
+			out = append(out, sqlTok{"param", ""})
+			i++
+		case c == '$':
+			j := i + 1
+			for j < len(s) && s[j] >= '0' && s[j] <= '9' {
+				j++
+			}
+			out = append(out, sqlTok{"param", s[i+1 : j]})
+			i = j
+		default:
+			two := ""
+			if i+1 < len(s) {
+				two = s[i : i+2]
+			}
+			switch two {
+			case "!=", "<>", "<=", ">=", "||":
+				out = append(out, sqlTok{"op", two})
+				i += 2
+			default:
+				if strings.ContainsRune("=<>+-*/(),", rune(c)) {
+					out = append(out, sqlTok{"op", string(c)})
+					i++
+				} else {
+					p.unsupported("sql: unexpected character %q in %q", c, s)
+				}
+			}
+		}
+	}
+	return out
+}
+
+type sqlExpr struct {
+	op   string // col, lit, param, bin, not, call, in, like
+	name string
+	val  sqlVal
+	idx  int
+	args []*sqlExpr
+}
+
+type sqlParser struct {
+	p      *Path
+	toks   []sqlTok
+	pos    int
+	nparam int
+	src    string
+}
+
+func (sp *sqlParser) peek() sqlTok {
+	if sp.pos < len(sp.toks) {
+		return sp.toks[sp.pos]
+	}
+	return sqlTok{"eof", ""}
+}
+func (sp *sqlParser) next() sqlTok { t := sp.peek(); sp.pos++; return t }
+func (sp *sqlParser) isKw(k string) bool {
+	t := sp.peek()
+	return t.k == "id" && t.v == k
+}
+func (sp *sqlParser) isOp(o string) bool {
+	t := sp.peek()
+	return t.k == "op" && t.v == o
+}
+func (sp *sqlParser) expectKw(k string) {
+	if !sp.isKw(k) {
+		sp.p.unsupported("sql: expected %q at token %d in %q", k, sp.pos, sp.src)
+	}
+	sp.pos++
+}
+func (sp *sqlParser) expectOp(o string) {
+	if !sp.isOp(o) {
+		sp.p.unsupported("sql: expected %q at token %d in %q", o, sp.pos, sp.src)
+	}
+	sp.pos++
+}
+
+func (sp *sqlParser) expr() *sqlExpr { return sp.orExpr() }
+
+func (sp *sqlParser) orExpr() *sqlExpr {
+	l := sp.andExpr()
+	for sp.isKw("or") {
+		sp.pos++
+		r := sp.andExpr()
+		l = &sqlExpr{op: "bin", name: "or", args: []*sqlExpr{l, r}}
+	}
+	return l
+}
+
+func (sp *sqlParser) andExpr() *sqlExpr {
+	l := sp.notExpr()
+	for sp.isKw("and") {
+		sp.pos++
+		r := sp.notExpr()
+		l = &sqlExpr{op: "bin", name: "and", args: []*sqlExpr{l, r}}
+	}
+	return l
+}
+
+func (sp *sqlParser) notExpr() *sqlExpr {
+	if sp.isKw("not") {
+		sp.pos++
+		return &sqlExpr{op: "not", args: []*sqlExpr{sp.notExpr()}}
+	}
+	return sp.cmpExpr()
+}
+
+func (sp *sqlParser) cmpExpr() *sqlExpr {
+	l := sp.concatExpr()
+	for {
+		t := sp.peek()
+		if t.k == "op" && (t.v == "=" || t.v == "!=" || t.v == "<>" || t.v == "<" || t.v == "<=" || t.v == ">" || t.v == ">=") {
+			sp.pos++
+			r := sp.concatExpr()
+			op := t.v
+			if op == "<>" {
+				op = "!="
+			}
+			l = &sqlExpr{op: "bin", name: op, args: []*sqlExpr{l, r}}
+			continue
+		}
+		neg := false
+		save := sp.pos
+		if sp.isKw("not") {
+			sp.pos++
+			neg = true
+		}
+		if sp.isKw("like") {
+			sp.pos++
+			r := sp.concatExpr()
+			l = &sqlExpr{op: "like", args: []*sqlExpr{l, r}}
+			if neg {
+				l = &sqlExpr{op: "not", args: []*sqlExpr{l}}
+			}
+			continue
+		}
+		if sp.isKw("in") {
+			sp.pos++
+			sp.expectOp("(")
+			e := &sqlExpr{op: "in", args: []*sqlExpr{l}}
+			for !sp.isOp(")") {
+				e.args = append(e.args, sp.expr())
+				if sp.isOp(",") {
+					sp.pos++
+				}
+			}
+			sp.expectOp(")")
+			l = e
+			if neg {
+				l = &sqlExpr{op: "not", args: []*sqlExpr{l}}
+			}
+			continue
+		}
+		sp.pos = save
+		return l
+	}
+}
+
+func (sp *sqlParser) concatExpr() *sqlExpr {
+	l := sp.addExpr()
+	for sp.isOp("||") {
+		sp.pos++
+		r := sp.addExpr()
+		l = &sqlExpr{op: "bin", name: "||", args: []*sqlExpr{l, r}}
+	}
+	return l
+}
+
+func (sp *sqlParser) addExpr() *sqlExpr {
+	l := sp.mulExpr()
+	for sp.isOp("+") || sp.isOp("-") {
+		o := sp.next().v
+		r := sp.mulExpr()
+		l = &sqlExpr{op: "bin", name: o, args: []*sqlExpr{l, r}}
+	}
+	return l
+}
+
+func (sp *sqlParser) mulExpr() *sqlExpr {
+	l := sp.primary()
+	for sp.isOp("*") {
+		sp.pos++
+		r := sp.primary()
+		l = &sqlExpr{op: "bin", name: "*", args: []*sqlExpr{l, r}}
+	}
+	return l
+}
+
+func (sp *sqlParser) primary() *sqlExpr {
+	t := sp.next()
+	switch t.k {
+	case "num":
+		n, _ := strconv.ParseInt(t.v, 10, 64)
+		return &sqlExpr{op: "lit", val: sqlVal{i: BVCi(64, n)}}
+	case "str":
+		return &sqlExpr{op: "lit", val: sqlVal{s: StrC(t.v)}}
+	case "dq":
+		return &sqlExpr{op: "dq", name: t.v}
+	case "param":
+		idx := sp.nparam
+		if t.v != "" {
+			n, _ := strconv.Atoi(t.v)
+			idx = n - 1
+		} else {
+			sp.nparam++
+		}
+		return &sqlExpr{op: "param", idx: idx}
+	case "op":
+		if t.v == "(" {
+			e := sp.expr()
+			sp.expectOp(")")
+			return e
+		}
+		if t.v == "*" {
+			return &sqlExpr{op: "star"}
+		}
+	case "id":
+		if sp.isOp("(") {
+			sp.pos++
+			e := &sqlExpr{op: "call", name: t.v}
+			for !sp.isOp(")") {
+				e.args = append(e.args, sp.expr())
+				if sp.isOp(",") {
+					sp.pos++
+				}
+			}
+			sp.expectOp(")")
+			return e
+		}
+		name := t.v
+		if i := strings.LastIndex(name, "."); i >= 0 {
+			name = name[i+1:]
+		}
+		return &sqlExpr{op: "col", name: name}
+	}
+	sp.p.unsupported("sql: unexpected token %v in %q", t, sp.src)
+	return nil
+}
+
+type sqlItem struct {
+	e     *sqlExpr
+	alias string
+	text  string
+}
+
+type sqlStmt struct {
+	kind    string // select, update
+	items   []sqlItem
+	where   *sqlExpr
+	orderBy *sqlExpr
+	desc    bool
+	limit   *sqlExpr
+	sets    []sqlItem // update: column name in alias, value expr in e
+	agg     bool
+}
+
+func (p *Path) sqlParse(src string) *sqlStmt {
+	sp := &sqlParser{p: p, toks: sqlLex(p, src), src: src}
+	st := &sqlStmt{}
+	switch {
+	case sp.isKw("select"):
+		sp.pos++
+		st.kind = "select"
+		for {
+			start := sp.pos
+			e := sp.expr()
+			it := sqlItem{e: e}
+			if sp.isKw("as") {
+				sp.pos++
+				it.alias = sp.next().v
+			}
+			if e.op == "col" && it.alias == "" {
+				it.alias = e.name
+			}
+			_ = start
+			if e.op == "call" && (e.name == "min" || e.name == "max") {
+				st.agg = true
+			}
+			st.items = append(st.items, it)
+			if sp.isOp(",") {
+				sp.pos++
+				continue
+			}
+			break
+		}
+		sp.expectKw("from")
+		sp.next() // table
+	case sp.isKw("update"):
+		sp.pos++
+		st.kind = "update"
+		sp.next() // table
+		sp.expectKw("set")
+		for {
+			col := sp.next()
+			sp.expectOp("=")
+			e := sp.concatExpr()
+			st.sets = append(st.sets, sqlItem{e: e, alias: col.v})
+			if sp.isOp(",") {
+				sp.pos++
+				continue
+			}
+			break
+		}
+	default:
+		p.unsupported("sql: unsupported statement %q", src)
+	}
+	if sp.isKw("where") {
+		sp.pos++
+		st.where = sp.expr()
+	}
+	if sp.isKw("order") {
+		sp.pos++
+		sp.expectKw("by")
+		st.orderBy = sp.expr()
+		if sp.isKw("desc") {
+			sp.pos++
+			st.desc = true
+		} else if sp.isKw("asc") {
+			sp.pos++
+		}
+	}
+	if sp.isKw("limit") {
+		sp.pos++
+		st.limit = sp.expr()
+	}
+	if sp.pos < len(sp.toks) {
+		p.unsupported("sql: trailing tokens in %q", src)
+	}
+	return st
+}
+
+// ---------- evaluation ----------
+
+type sqlEnv struct {
+	p      *Path
+	t      *sqlTable
+	row    *StructVal
+	params []sqlVal
+	alias  map[string]*sqlExpr
+	depth  int
+}
+
+func (p *Path) colVal(t *sqlTable, row *StructVal, idx int) sqlVal {
+	return p.sqlFromValue(row.F[idx])
+}
+
+func (ev *sqlEnv) eval(e *sqlExpr) sqlVal {
+	p := ev.p
+	switch e.op {
+	case "lit":
+		return e.val
+	case "param":
+		if e.idx >= len(ev.params) {
+			p.unsupported("sql: missing parameter %d", e.idx+1)
+		}
+		return ev.params[e.idx]
+	case "dq":
+		if idx, ok := ev.t.col[e.name]; ok {
+			return p.colVal(ev.t, ev.row, idx)
+		}
+		return sqlVal{s: StrC(e.name)} // SQLite: unknown double-quoted identifier is a string literal
+	case "col":
+		if a, ok := ev.alias[e.name]; ok && ev.depth < 4 {
+			if _, isCol := ev.t.col[e.name]; !isCol {
+				ev.depth++
+				v := ev.eval(a)
+				ev.depth--
+				return v
+			}
+		}
+		idx, ok := ev.t.col[e.name]
+		if !ok {
+			p.unsupported("sql: unknown column %q", e.name)
+		}
+		return p.colVal(ev.t, ev.row, idx)
+	case "not":
+		return boolVal(Not(p.truth(ev.eval(e.args[0]))))
+	case "like":
+		l, r := ev.eval(e.args[0]), ev.eval(e.args[1])
+		if !l.isText() || !r.isText() {
+			p.unsupported("sql: like on non-text")
+		}
+		return boolVal(sqlLike(l.s, r.s))
+	case "in":
+		l := ev.eval(e.args[0])
+		var cs []*Term
+		for _, a := range e.args[1:] {
+			cs = append(cs, ev.cmpEq(l, ev.eval(a)))
+		}
+		return boolVal(Or(cs...))
+	case "call":
+		switch e.name {
+		case "length":
+			v := ev.eval(e.args[0])
+			if !v.isText() {
+				p.unsupported("sql: length of non-text")
+			}
+			return sqlVal{i: sqlLength(v.s)}
+		case "instr":
+			h, n := ev.eval(e.args[0]), ev.eval(e.args[1])
+			if !h.isText() || !n.isText() {
+				p.unsupported("sql: instr on non-text")
+			}
+			return sqlVal{i: sqlInstr(h.s, n.s)}
+		case "substr":
+			p.unsupported("sql: substr")
+		case "replace":
+			s, from, to := ev.eval(e.args[0]), ev.eval(e.args[1]), ev.eval(e.args[2])
+			if !s.isText() || !from.isText() || !to.isText() {
+				p.unsupported("sql: replace on non-text")
+			}
+			return sqlVal{s: p.sqlReplace(s.s, from.s, to.s)}
+		}
+		p.unsupported("sql: function %s", e.name)
+	case "bin":
+		switch e.name {
+		case "and":
+			return boolVal(And(p.truth(ev.eval(e.args[0])), p.truth(ev.eval(e.args[1]))))
+		case "or":
+			return boolVal(Or(p.truth(ev.eval(e.args[0])), p.truth(ev.eval(e.args[1]))))
+		}
+		l, r := ev.eval(e.args[0]), ev.eval(e.args[1])
+		switch e.name {
+		case "=":
+			return boolVal(ev.cmpEq(l, r))
+		case "!=":
+			return boolVal(Not(ev.cmpEq(l, r)))
+		case "||":
+			if !l.isText() || !r.isText() {
+				p.unsupported("sql: || on non-text")
+			}
+			nb := append(append([]*Term{}, l.s.B...), r.s.B...)
+			return sqlVal{s: StrFromTerms(nb)}
+		}
+		if l.isText() || r.isText() {
+			p.unsupported("sql: arithmetic/ordering on text")
+		}
+		switch e.name {
+		case "+":
+			return sqlVal{i: Add(l.i, r.i)}
+		case "-":
+			return sqlVal{i: Sub(l.i, r.i)}
+		case "*":
+			return sqlVal{i: Mul(l.i, r.i)}
+		case "<":
+			return boolVal(SLt(l.i, r.i))
+		case "<=":
+			return boolVal(SLe(l.i, r.i))
+		case ">":
+			return boolVal(SLt(r.i, l.i))
+		case ">=":
+			return boolVal(SLe(r.i, l.i))
+		}
+	}
+	p.unsupported("sql: expression %s %s", e.op, e.name)
+	return sqlVal{}
+}
+
+func (ev *sqlEnv) cmpEq(l, r sqlVal) *Term {
+	if l.null || r.null {
+		return FalseT
+	}
+	if l.isText() != r.isText() {
+		return FalseT // SQLite: text never equals integer
+	}
+	if l.isText() {
+		return StrEq(l.s, r.s)
+	}
+	return Eq(l.i, r.i)
+}
+
+// sqlLength: number of UTF-8 characters = bytes that are not continuation bytes.
+func sqlLength(s *StrVal) *Term {
+	n := BVC(64, 0)
+	for _, b := range s.B {
+		isCont := Eq(BAnd(b, BVC(8, 0xC0)), BVC(8, 0x80))
+		n = Add(n, Ite(isCont, BVC(64, 0), BVC(64, 1)))
+	}
+	return n
+}
+
+// sqlInstr: 1-based character index of the first occurrence of needle (binary comparison), 0 if none.
+func sqlInstr(h, n *StrVal) *Term {
+	if len(n.B) == 0 {
+		return BVC(64, 1)
+	}
+	res := BVC(64, 0)
+	for i := len(h.B) - len(n.B); i >= 0; i-- {
+		m := StrEq(StrFromTerms(h.B[i:i+len(n.B)]), n)
+		if m.IsFalse() {
+			continue
+		}
+		idx := Add(sqlLength(StrFromTerms(h.B[:i])), BVC(64, 1))
+		res = Ite(m, idx, res)
+	}
+	return res
+}
+
+// sqlReplace: left-to-right non-overlapping replacement; forks on each possible match position.
+func (p *Path) sqlReplace(s, from, to *StrVal) *StrVal {
+	if len(from.B) == 0 || len(from.B) > len(s.B) {
+		return s
+	}
+	var out []*Term
+	i := 0
+	for i < len(s.B) {
+		if i+len(from.B) <= len(s.B) {
+			m := StrEq(StrFromTerms(s.B[i:i+len(from.B)]), from)
+			if p.Branch(m) {
+				out = append(out, to.B...)
+				i += len(from.B)
+				continue
+			}
+		}
+		out = append(out, s.B[i])
+		i++
+	}
+	return StrFromTerms(out)
+}
+
+func lowerASCII(b *Term) *Term {
+	isUp := And(ULe(BVC(8, 'A'), b), ULe(b, BVC(8, 'Z')))
+	return Ite(isUp, BOr(b, BVC(8, 0x20)), b)
+}
+
+// sqlLike builds the match condition as one term (no forking), memoised over (i, j).
+func sqlLike(s, pat *StrVal) *Term {
+	n, m := len(s.B), len(pat.B)
+	memo := make([][]*Term, n+2)
+	for i := range memo {
+		memo[i] = make([]*Term, m+2)
+	}
+	var match func(i, j int) *Term
+	match = func(i, j int) *Term {
+		if i > n {
+			return FalseT
+		}
+		if memo[i][j] != nil {
+			return memo[i][j]
+		}
+		var r *Term
+		if j == m {
+			r = BoolC(i == n)
+		} else {
+			pc := pat.B[j]
+			isPct := Eq(pc, BVC(8, '%'))
+			isUnd := Eq(pc, BVC(8, '_'))
+			// '%': any run of characters (byte positions are fine since the rest must still match)
+			var alts []*Term
+			if !isPct.IsFalse() {
+				for k := i; k <= n; k++ {
+					alts = append(alts, match(k, j+1))
+				}
+			}
+			pct := Or(alts...)
+			var und, lit *Term = FalseT, FalseT
+			if i < n {
+				if !isUnd.IsFalse() {
+					// one UTF-8 character: skip the lead byte and its continuation bytes
+					b := s.B[i]
+					one := match(i+1, j+1)
+					two := match(i+2, j+1)
+					three := match(i+3, j+1)
+					four := match(i+4, j+1)
+					und = Ite(ULt(b, BVC(8, 0xC0)), one, Ite(ULt(b, BVC(8, 0xE0)), two, Ite(ULt(b, BVC(8, 0xF0)), three, four)))
+				}
+				lit = And(Eq(lowerASCII(s.B[i]), lowerASCII(pc)), match(i+1, j+1))
+			}
+			r = Ite(isPct, pct, Ite(isUnd, und, lit))
+		}
+		memo[i][j] = r
+		return r
+	}
+	return match(0, 0)
+}
+
+// ---------- statement execution ----------
+
+func (p *Path) sqlFault(what string) Value {
+	mp := p.E.SSA[ModelPkg]
+	if mp == nil {
+		return nil
+	}
+	fp := mp.Func("FaultPoint")
+	if fp == nil {
+		return nil
+	}
+	r := p.CallFn(fp, []Value{StrC("sql." + what)}, nil).(*Term)
+	if p.Branch(r) {
+		return p.errVal("injected database fault (" + what + ")")
+	}
+	return nil
+}
+
+func (p *Path) errNoRows() Value {
+	g := p.E.findGlobal("database/sql", "ErrNoRows")
+	return p.global(g).Val
+}
+
+func (p *Path) selectRows(t *sqlTable, st *sqlStmt, params []sqlVal, max int) []*StructVal {
+	alias := map[string]*sqlExpr{}
+	for _, it := range st.items {
+		if it.alias != "" && it.e.op != "col" {
+			alias[it.alias] = it.e
+		}
+	}
+	var out []*StructVal
+	for _, row := range t.rows {
+		if max >= 0 && len(out) >= max {
+			break
+		}
+		ev := &sqlEnv{p: p, t: t, row: row, params: params, alias: alias}
+		c := TrueT
+		if st.where != nil {
+			c = p.truth(ev.eval(st.where))
+		}
+		if p.Branch(c) {
+			out = append(out, row)
+		}
+	}
+	return out
+}
+
+// bindRow copies selected columns of a row into a struct pointer (by boil tag, else by field name).
+func (p *Path) bindRow(t *sqlTable, st *sqlStmt, row *StructVal, params []sqlVal, target *Pointer, targetType types.Type, alias map[string]*sqlExpr) {
+	ts := targetType.Underlying().(*types.Struct)
+	cur := target.load().(*StructVal)
+	find := func(col string) int {
+		for i := 0; i < ts.NumFields(); i++ {
+			if boilTag(ts.Tag(i)) == col {
+				return i
+			}
+		}
+		for i := 0; i < ts.NumFields(); i++ {
+			if strings.EqualFold(ts.Field(i).Name(), col) {
+				return i
+			}
+		}
+		return -1
+	}
+	ev := &sqlEnv{p: p, t: t, row: row, params: params, alias: alias}
+	for _, it := range st.items {
+		if it.e.op == "star" {
+			for c, idx := range t.col {
+				if fi := find(c); fi >= 0 {
+					cur.F[fi] = copyVal(row.F[idx])
+				}
+			}
+			continue
+		}
+		name := it.alias
+		if name == "" {
+			continue // unnamed expression column: no matching field, ignored by the binder
+		}
+		fi := find(name)
+		if fi < 0 {
+			continue
+		}
+		if it.e.op == "col" || it.e.op == "dq" {
+			if idx, ok := t.col[it.e.name]; ok {
+				cur.F[fi] = copyVal(row.F[idx])
+				continue
+			}
+		}
+		v := ev.eval(it.e)
+		if v.isText() {
+			cur.F[fi] = v.s
+		} else {
+			ft := ts.Field(fi).Type()
+			if b, ok := ft.Underlying().(*types.Basic); ok {
+				if w, _, isInt := basicWidth(b); isInt {
+					cur.F[fi] = Resize(v.i, w, true)
+				}
+			}
+		}
+	}
+	target.store(cur)
+}
+
+func registerSQL(e *Engine) {
+	I := e.Intrinsics
+	const qmPkg = "github.com/volatiletech/sqlboiler/v4/queries/qm."
+	const qPkg = "github.com/volatiletech/sqlboiler/v4/queries."
+	M := modelsPkg
+
+	I["(*github.com/pojntfx/stfs/internal/persisters.SQLite).Open"] = func(p *Path, fn *ssa.Function, a []Value) Value {
+		if er := p.sqlFault("open"); er != nil {
+			return er
+		}
+		ptr := a[0].(*Pointer)
+		st := ptr.Obj.Typ.Underlying().(*types.Struct)
+		if len(ptr.Path) != 0 {
+			p.unsupported("SQLite.Open on embedded struct")
+		}
+		for i := 0; i < st.NumFields(); i++ {
+			if st.Field(i).Name() == "DB" {
+				cur := ptr.Sub(i).load().(*Pointer)
+				if cur.IsNil() {
+					dbT := st.Field(i).Type().(*types.Pointer).Elem()
+					p.nextObj++
+					o := &Object{ID: p.nextObj, Val: &StructVal{}, Typ: dbT, Tag: "sql.DB"}
+					ptr.Sub(i).store(&Pointer{Obj: o})
+				}
+			}
+		}
+		return NilIface
+	}
+	I["(*github.com/pojntfx/stfs/internal/persisters.SQLite).Close"] = func(p *Path, fn *ssa.Function, a []Value) Value {
+		return NilIface
+	}
+	I[qmPkg+"Where"] = func(p *Path, fn *ssa.Function, a []Value) Value {
+		return &IfaceVal{T: opaqueType("qm.where"), V: &StructVal{F: []Value{a[0], a[1]}}}
+	}
+	I["github.com/volatiletech/sqlboiler/v4/boil.Infer"] = func(p *Path, fn *ssa.Function, a []Value) Value {
+		return p.E.zero(fn.Signature.Results().At(0).Type())
+	}
+	// models.Headers(mods...) -> headerQuery carrying the mods
+	I[M+".Headers"] = func(p *Path, fn *ssa.Function, a []Value) Value {
+		res := p.E.zero(fn.Signature.Results().At(0).Type()).(*StructVal)
+		p.nextObj++
+		o := &Object{ID: p.nextObj, Val: &StructVal{}, Tag: "query"}
+		res.F[0] = &Pointer{Obj: o}
+		p.ghost[fmt.Sprintf("mods:%d", o.ID)] = a[0]
+		return res
+	}
+	modsOf := func(p *Path, q Value) (string, []sqlVal) {
+		qs := q.(*StructVal)
+		o := qs.F[0].(*Pointer).Obj
+		mods, _ := p.ghost[fmt.Sprintf("mods:%d", o.ID)].(*SliceVal)
+		var clauses []string
+		var params []sqlVal
+		if mods != nil && !mods.IsNil() {
+			arr := mods.Arr()
+			for i := 0; i < mods.Len; i++ {
+				iv := arr.Get(mods.Off + i).(*IfaceVal)
+				sv := iv.V.(*StructVal)
+				clauses = append(clauses, "("+concStr(p, sv.F[0], "where clause")+")")
+				if args, ok := sv.F[1].(*SliceVal); ok && !args.IsNil() {
+					aa := args.Arr()
+					for j := 0; j < args.Len; j++ {
+						params = append(params, p.sqlFromValue(aa.Get(args.Off+j)))
+					}
+				}
+			}
+		}
+		sql := "select * from headers"
+		if len(clauses) > 0 {
+			sql += " where " + strings.Join(clauses, " and ")
+		}
+		return sql, params
+	}
+	newHeaderPtr := func(p *Path, t *sqlTable, row *StructVal) *Pointer {
+		o := p.newObj(t.named, "row")
+		o.Val = copyVal(row)
+		return &Pointer{Obj: o}
+	}
+	I["("+M+".headerQuery).One"] = func(p *Path, fn *ssa.Function, a []Value) Value {
+		if er := p.sqlFault("one"); er != nil {
+			return TupleVal{NilPtr, er}
+		}
+		t := p.tableOf(a[2])
+		t.reads++
+		sql, params := modsOf(p, a[0])
+		rows := p.selectRows(t, p.sqlParse(sql), params, 1)
+		if len(rows) == 0 {
+			return TupleVal{NilPtr, p.errNoRows()}
+		}
+		return TupleVal{newHeaderPtr(p, t, rows[0]), NilIface}
+	}
+	I["("+M+".headerQuery).All"] = func(p *Path, fn *ssa.Function, a []Value) Value {
+		if er := p.sqlFault("all"); er != nil {
+			return TupleVal{&SliceVal{}, er}
+		}
+		t := p.tableOf(a[2])
+		t.reads++
+		sql, params := modsOf(p, a[0])
+		rows := p.selectRows(t, p.sqlParse(sql), params, -1)
+		et := types.NewPointer(t.named)
+		o := p.newArrayObj(et, len(rows))
+		for i, r := range rows {
+			o.Val.(*ArrayVal).E[i] = newHeaderPtr(p, t, r)
+		}
+		return TupleVal{&SliceVal{Obj: o, Len: len(rows), Cap: len(rows)}, NilIface}
+	}
+	I["("+M+".headerQuery).Exists"] = func(p *Path, fn *ssa.Function, a []Value) Value {
+		if er := p.sqlFault("exists"); er != nil {
+			return TupleVal{FalseT, er}
+		}
+		t := p.tableOf(a[2])
+		t.reads++
+		sql, params := modsOf(p, a[0])
+		rows := p.selectRows(t, p.sqlParse(sql), params, 1)
+		return TupleVal{BoolC(len(rows) > 0), NilIface}
+	}
+	I["("+M+".headerQuery).DeleteAll"] = func(p *Path, fn *ssa.Function, a []Value) Value {
+		if er := p.sqlFault("deleteall"); er != nil {
+			return TupleVal{BVC(64, 0), er}
+		}
+		t := p.tableOf(a[2])
+		t.writes++
+		sql, params := modsOf(p, a[0])
+		st := p.sqlParse(sql)
+		del := p.selectRows(t, st, params, -1)
+		var keep []*StructVal
+		for _, r := range t.rows {
+			gone := false
+			for _, d := range del {
+				if d == r {
+					gone = true
+				}
+			}
+			if !gone {
+				keep = append(keep, r)
+			}
+		}
+		t.rows = keep
+		return TupleVal{BVCi(64, int64(len(del))), NilIface}
+	}
+	pkEq := func(p *Path, t *sqlTable, r *StructVal, h *StructVal) *Term {
+		ni, li := t.col["name"], t.col["linkname"]
+		return And(StrEq(r.F[ni].(*StrVal), h.F[ni].(*StrVal)), StrEq(r.F[li].(*StrVal), h.F[li].(*StrVal)))
+	}
+	I["(*"+M+".Header).Insert"] = func(p *Path, fn *ssa.Function, a []Value) Value {
+		if er := p.sqlFault("insert"); er != nil {
+			return er
+		}
+		t := p.tableOf(a[2])
+		t.writes++
+		h := a[0].(*Pointer).load().(*StructVal)
+		for _, r := range t.rows {
+			if p.Branch(pkEq(p, t, r, h)) {
+				return p.errVal("models: unable to insert into headers: constraint failed: UNIQUE constraint failed: headers.name, headers.linkname (1555)")
+			}
+		}
+		t.rows = append(t.rows, copyVal(h).(*StructVal))
+		return NilIface
+	}
+	I["(*"+M+".Header).Update"] = func(p *Path, fn *ssa.Function, a []Value) Value {
+		if er := p.sqlFault("update"); er != nil {
+			return TupleVal{BVC(64, 0), er}
+		}
+		t := p.tableOf(a[2])
+		t.writes++
+		h := a[0].(*Pointer).load().(*StructVal)
+		for i, r := range t.rows {
+			if p.Branch(pkEq(p, t, r, h)) {
+				nr := copyVal(h).(*StructVal)
+				t.rows[i] = nr
+				return TupleVal{BVC(64, 1), NilIface}
+			}
+		}
+		return TupleVal{BVC(64, 0), NilIface}
+	}
+	I[qPkg+"Raw"] = func(p *Path, fn *ssa.Function, a []Value) Value {
+		p.nextObj++
+		o := &Object{ID: p.nextObj, Val: &StructVal{}, Tag: "rawquery"}
+		p.ghost[fmt.Sprintf("raw:%d", o.ID)] = TupleVal{a[0], a[1]}
+		return &Pointer{Obj: o}
+	}
+	rawOf := func(p *Path, q Value) (string, []sqlVal) {
+		o := q.(*Pointer).Obj
+		tv, ok := p.ghost[fmt.Sprintf("raw:%d", o.ID)].(TupleVal)
+		if !ok {
+			p.unsupported("sql: query object not created by queries.Raw")
+		}
+		sql := concStr(p, tv[0], "raw sql")
+		var params []sqlVal
+		if args, ok := tv[1].(*SliceVal); ok && !args.IsNil() {
+			aa := args.Arr()
+			for j := 0; j < args.Len; j++ {
+				params = append(params, p.sqlFromValue(aa.Get(args.Off+j)))
+			}
+		}
+		return sql, params
+	}
+	I["(*"+qPkg[:len(qPkg)-1]+".Query).Bind"] = func(p *Path, fn *ssa.Function, a []Value) Value {
+		if er := p.sqlFault("bind"); er != nil {
+			return er
+		}
+		t := p.tableOf(a[2])
+		t.reads++
+		sql, params := rawOf(p, a[0])
+		st := p.sqlParse(sql)
+		if st.kind != "select" {
+			p.unsupported("sql: Bind of non-select")
+		}
+		target := a[3].(*IfaceVal)
+		tptr := target.V.(*Pointer)
+		tt := target.T.(*types.Pointer).Elem()
+		alias := map[string]*sqlExpr{}
+		for _, it := range st.items {
+			if it.alias != "" && it.e.op != "col" {
+				alias[it.alias] = it.e
+			}
+		}
+		if st.agg {
+			return p.sqlAggregate(t, st, params, tptr, tt)
+		}
+		var rows []*StructVal
+		if st.orderBy != nil {
+			if st.limit == nil {
+				p.unsupported("sql: order by without limit")
+			}
+			rows = p.sqlTop(t, st, params, alias)
+		} else {
+			max := -1
+			if st.limit != nil {
+				ev := &sqlEnv{p: p, t: t, params: params}
+				lv := ev.eval(st.limit)
+				max = int(int64(p.Concretize(lv.i, "sql.limit")))
+			}
+			rows = p.selectRows(t, st, params, max)
+		}
+		if sl, ok := tt.Underlying().(*types.Slice); ok {
+			// slice of pointers to structs
+			et := sl.Elem().(*types.Pointer).Elem()
+			cur := tptr.load().(*SliceVal)
+			var args []Value
+			for _, r := range rows {
+				o := p.newObj(et, "boundrow")
+				ptr := &Pointer{Obj: o}
+				p.bindRow(t, st, r, params, ptr, et, alias)
+				args = append(args, ptr)
+			}
+			o := p.newArrayObj(sl.Elem(), len(args)+cur.lenOrZero())
+			arr := o.Val.(*ArrayVal)
+			n := 0
+			if !cur.IsNil() {
+				for i := 0; i < cur.Len; i++ {
+					arr.E[n] = cur.Arr().Get(cur.Off + i)
+					n++
+				}
+			}
+			for _, x := range args {
+				arr.E[n] = x
+				n++
+			}
+			tptr.store(&SliceVal{Obj: o, Len: n, Cap: n})
+			return NilIface
+		}
+		if len(rows) == 0 {
+			return p.errNoRows()
+		}
+		p.bindRow(t, st, rows[0], params, tptr, tt, alias)
+		return NilIface
+	}
+	I["(*"+qPkg[:len(qPkg)-1]+".Query).ExecContext"] = func(p *Path, fn *ssa.Function, a []Value) Value {
+		if er := p.sqlFault("exec"); er != nil {
+			return TupleVal{NilIface, er}
+		}
+		t := p.tableOf(a[2])
+		t.writes++
+		sql, params := rawOf(p, a[0])
+		st := p.sqlParse(sql)
+		if st.kind != "update" {
+			p.unsupported("sql: ExecContext of non-update")
+		}
+		hit := p.selectRows(t, st, params, -1)
+		ni, li := t.col["name"], t.col["linkname"]
+		for _, r := range hit {
+			nr := copyVal(r).(*StructVal)
+			ev := &sqlEnv{p: p, t: t, row: r, params: params}
+			for _, s := range st.sets {
+				idx, ok := t.col[s.alias]
+				if !ok {
+					p.unsupported("sql: update of unknown column %q", s.alias)
+				}
+				v := ev.eval(s.e)
+				if v.isText() {
+					nr.F[idx] = v.s
+				} else {
+					nr.F[idx] = v.i
+				}
+			}
+			// primary key (name, linkname) must stay unique
+			for _, o := range t.rows {
+				if o == r {
+					continue
+				}
+				dup := And(StrEq(o.F[ni].(*StrVal), nr.F[ni].(*StrVal)), StrEq(o.F[li].(*StrVal), nr.F[li].(*StrVal)))
+				if p.Branch(dup) {
+					return TupleVal{NilIface, p.errVal("constraint failed: UNIQUE constraint failed: headers.name, headers.linkname (1555)")}
+				}
+			}
+			for i := range t.rows {
+				if t.rows[i] == r {
+					t.rows[i] = nr
+				}
+			}
+		}
+		return TupleVal{p.sqlResult(int64(len(hit))), NilIface}
+	}
+
+	// harness access to the table
+	V := ModelPkg + "."
+	I[V+"TableInsert"] = func(p *Path, fn *ssa.Function, a []Value) Value {
+		t := p.tableOf(a[0])
+		h := a[1].(*Pointer).load().(*StructVal)
+		t.rows = append(t.rows, copyVal(h).(*StructVal))
+		return nil
+	}
+	I[V+"TableLen"] = func(p *Path, fn *ssa.Function, a []Value) Value {
+		return BVCi(64, int64(len(p.tableOf(a[0]).rows)))
+	}
+	I[V+"TableRow"] = func(p *Path, fn *ssa.Function, a []Value) Value {
+		t := p.tableOf(a[0])
+		i := int(concInt(p, a[1], "TableRow index"))
+		return newHeaderPtr(p, t, t.rows[i])
+	}
+	I[V+"TableWrites"] = func(p *Path, fn *ssa.Function, a []Value) Value {
+		return BVCi(64, int64(p.tableOf(a[0]).writes))
+	}
+	I[V+"TableClone"] = func(p *Path, fn *ssa.Function, a []Value) Value {
+		src, dst := p.tableOf(a[0]), p.tableOf(a[1])
+		dst.rows = nil
+		for _, r := range src.rows {
+			dst.rows = append(dst.rows, copyVal(r).(*StructVal))
+		}
+		return nil
+	}
+}
+
+func (p *Path) sqlResult(n int64) Value {
+	mp := p.E.SSA[ModelPkg]
+	tn := mp.Pkg.Scope().Lookup("SQLResult")
+	if tn == nil {
+		p.unsupported("verifmodel.SQLResult missing")
+	}
+	sv := p.E.zero(tn.Type()).(*StructVal)
+	sv.F[0] = BVCi(64, n)
+	return &IfaceVal{T: tn.Type(), V: sv}
+}
+
+// sqlAggregate handles select min(expr) [as a], <bare column>... [where ...]
+func (p *Path) sqlAggregate(t *sqlTable, st *sqlStmt, params []sqlVal, tptr *Pointer, tt types.Type) Value {
+	var minExpr *sqlExpr
+	for _, it := range st.items {
+		if it.e.op == "call" && it.e.name == "min" {
+			minExpr = it.e.args[0]
+		}
+	}
+	rows := p.selectRows(t, st, params, -1)
+	if len(rows) == 0 {
+		// min() over no rows is NULL; scanning NULL into a non-nullable field fails
+		first := st.items[0]
+		name := first.alias
+		ts := tt.Underlying().(*types.Struct)
+		kind := "int64"
+		// the binder reports the first column it cannot convert
+		for i := 0; i < ts.NumFields(); i++ {
+			if boilTag(ts.Tag(i)) == name || strings.EqualFold(ts.Field(i).Name(), name) {
+				if b, ok := ts.Field(i).Type().Underlying().(*types.Basic); ok && b.Kind() == types.String {
+					kind = "string"
+				}
+			}
+		}
+		mapped := false
+		for i := 0; i < ts.NumFields(); i++ {
+			if boilTag(ts.Tag(i)) == name || strings.EqualFold(ts.Field(i).Name(), name) {
+				mapped = true
+			}
+		}
+		if !mapped {
+			// the aggregate itself is not bound; the bare column is NULL too
+			kind = "string"
+			name = "name"
+		}
+		return p.errVal(fmt.Sprintf("failed to bind pointers to obj: sql: Scan error on column index 0, name %q: converting NULL to %s is unsupported", name, kind))
+	}
+	// choose the first minimising row (rowid order)
+	vals := make([]*Term, len(rows))
+	for i, r := range rows {
+		ev := &sqlEnv{p: p, t: t, row: r, params: params}
+		vals[i] = ev.eval(minExpr).i
+	}
+	chosen := -1
+	for i := range rows {
+		c := TrueT
+		for j := range rows {
+			if j < i {
+				c = And(c, SLt(vals[i], vals[j]))
+			} else if j > i {
+				c = And(c, SLe(vals[i], vals[j]))
+			}
+		}
+		if p.Branch(c) {
+			chosen = i
+			break
+		}
+	}
+	if chosen < 0 {
+		panic(&abortPath{Kind: "infeasible", Msg: "sql: no minimising row"})
+	}
+	// bind: aggregate alias -> min value, bare columns -> chosen row
+	ts := tt.Underlying().(*types.Struct)
+	cur := tptr.load().(*StructVal)
+	for _, it := range st.items {
+		fi := -1
+		for i := 0; i < ts.NumFields(); i++ {
+			if boilTag(ts.Tag(i)) == it.alias || strings.EqualFold(ts.Field(i).Name(), it.alias) {
+				fi = i
+				break
+			}
+		}
+		if fi < 0 {
+			continue
+		}
+		if it.e.op == "call" {
+			cur.F[fi] = vals[chosen]
+		} else if idx, ok := t.col[it.e.name]; ok {
+			cur.F[fi] = copyVal(rows[chosen].F[idx])
+		}
+	}
+	tptr.store(cur)
+	return NilIface
+}
+
+// sqlTop handles "order by <expr> desc limit 1": the first row with the maximal key.
+func (p *Path) sqlTop(t *sqlTable, st *sqlStmt, params []sqlVal, alias map[string]*sqlExpr) []*StructVal {
+	rows := p.selectRows(t, st, params, -1)
+	if len(rows) == 0 {
+		return nil
+	}
+	vals := make([]*Term, len(rows))
+	for i, r := range rows {
+		ev := &sqlEnv{p: p, t: t, row: r, params: params, alias: alias}
+		vals[i] = ev.eval(st.orderBy).i
+	}
+	for i := range rows {
+		c := TrueT
+		for j := range rows {
+			if j == i {
+				continue
+			}
+			var better *Term
+			if st.desc {
+				if j < i {
+					better = SLt(vals[j], vals[i])
+				} else {
+					better = SLe(vals[j], vals[i])
+				}
+			} else {
+				if j < i {
+					better = SLt(vals[i], vals[j])
+				} else {
+					better = SLe(vals[i], vals[j])
+				}
+			}
+			c = And(c, better)
+		}
+		if p.Branch(c) {
+			return []*StructVal{rows[i]}
+		}
+	}
+	panic(&abortPath{Kind: "infeasible", Msg: "sql: no top row"})
+}
